@@ -7,7 +7,7 @@ TEXT = {
                 "specification functions. Right level because the property quantifies over all sizes/inputs, which only a theorem closes.",
         "design_ref": "DESIGN.md §6 C08",
         "note": "Trusted: Lean kernel (+propext, Classical.choice, Quot.sound), the hand-written model, harness and driver, sha2. "
-                "flat-tree root = RFC 6962 MTH is checked by evaluation per generated tree, not yet by a closed proof.",
+                "RFC-path completeness and acceptance of RFC paths by the crate's index walk are proved; that Tree::push builds the RFC root is checked by evaluation per generated tree.",
         "technique": "Lean 4 proof (induction over audit path / index levels) + differential correspondence with the Rust crate",
     },
     "C09": {
